@@ -105,10 +105,16 @@ done
 
 OUTFILE = {"checkout": "src.txt", "build": "result.txt", "package": "result.txt"}
 
-def recorder(fid, step, kind="plain"):
-    """script text of fragment fid for step kind ('checkout'|'build'|'package')"""
+def recorder(fid, step, kind="plain", inc=None):
+    """script text of fragment fid for step kind ('checkout'|'build'|'package');
+    inc = (mode, name): the fragment includes recipes/inc/<name> as quoted literal ("q") or as file ("f")"""
     out = OUTFILE[step]
     txt = "# verif fragment %d\n" % fid + (_COMMON % {"out": out}).lstrip("\n")
+    if inc:
+        if inc[0] == "q":
+            txt += 'echo "I "$<\'inc/%s\'> >> %s\n' % (inc[1], out)
+        else:
+            txt += 'while IFS= read -r __l || [ -n "$__l" ]; do echo "IF $__l" >> %s; done < $<<inc/%s>>\n' % (out, inc[1])
     if kind == "fp":
         txt += (_FP % {"out": out}).lstrip("\n")
     txt += 'echo "F %d" >> %s\n' % (fid, out)
